@@ -257,7 +257,7 @@ theorem mkSubCtx_fields (r : Rule) (p : Inst) (k : Nat) :
     (mkSubCtx r p k).posdMask = (domMasks r.dom).1 ∧ (mkSubCtx r p k).negdMask = (domMasks r.dom).2 ∧
     (mkSubCtx r p k).HMask = hourMask r.H ∧ (mkSubCtx r p k).MMask = min64Mask r.M ∧
     (mkSubCtx r p k).SMask = min64Mask r.S ∧ (mkSubCtx r p k).r = r ∧ (mkSubCtx r p k).proto = p ∧
-    (mkSubCtx r p k).nti = k ∧ (mkSubCtx r p k).e = makeEnum p r :=
+    (mkSubCtx r p k).nti = k ∧ (mkSubCtx r p k).e = subEnum p r :=
   ⟨rfl, rfl, rfl, rfl, rfl, rfl, rfl, rfl, rfl, rfl, rfl⟩
 
 /-- the weekday, month and day-of-month tests pass exactly on the dates the spec's `DateOk` admits -/
